@@ -279,6 +279,11 @@ func Response(r *rand.Rand, o HTTPOpts) RespSpec {
 	if r.Intn(3) == 0 {
 		obj["nested"] = map[string]any{"a": []any{1.0, "two", nil, map[string]any{"b": true}}}
 	}
+	if r.Intn(16) == 0 {
+		// documents around the sizes at which buffers end: 4 KB, 64 KB, 1 MB (the padding comes first or last in the object)
+		size := []int{4096, 65536, 1 << 20}[r.Intn(3)] - 40 + r.Intn(80)
+		obj[[]string{"aaa_pad", "zzz_pad"}[r.Intn(2)]] = strings.Repeat("p", size)
+	}
 	raw, _ := json.Marshal(obj)
 	switch {
 	case x < 50:
